@@ -490,6 +490,13 @@ fn run_history<B: BK>(ctx: &mut Ctx, ops: &[String]) {
             }
             "clone" => {
                 let r = idx(f[1]);
+                // `Clone::clone_from` into a value of a different length must behave like `clone`
+                for t in 0..pool.len() {
+                    let mut tgt = pool[t].clone();
+                    tgt.clone_from(&pool[r]);
+                    let ok = tgt == pool[r] && impl_obs(&tgt) == impl_obs(&pool[r]);
+                    ctx.out.r("C11", "bitops", ok, &["clone_from_equals_clone", "bitops", &ks, &hist, &step.to_string()]);
+                }
                 let c = pool[r].clone();
                 let o = impl_obs(&c);
                 pool.push(c);
@@ -683,7 +690,7 @@ fn byte_strings(g: &mut Rng, n: usize, thorough: bool) -> Vec<Vec<u8>> {
     for x in 0..=255u8 {
         out.push(vec![x]);
     }
-    let step = if thorough { 1 } else { 17 };
+    let step = if thorough { 3 } else { 17 };
     let mut a = 0usize;
     while a < 256 {
         for b in 0..=255u8 {
@@ -873,6 +880,49 @@ pub fn run_resize<N: Unsigned + Clone, M: Unsigned + Clone>(ctx: &mut Ctx) {
             };
             ctx.out.r("C13", "bitbytes", good, &["resize_preserves_set_bits_or_fails", "bf_resize", &n.to_string(), &m.to_string(), &val]);
         }
+    }
+}
+
+/// capacities outside the catalogue and one very long input: only implementation-side oracles
+pub fn run_bit_extremes(ctx: &mut Ctx) {
+    use typenum::{Shleft, Sub1, U1, U1099511627776, U64};
+    type CapMax = Sub1<Shleft<U1, U64>>; // usize::MAX
+    fn small<N: Unsigned + Clone>(ctx: &mut Ctx, name: &str) {
+        for b in [vec![], vec![0u8], vec![1], vec![0x1f], vec![0xff, 0x01], vec![0, 0, 0x80], vec![0xff; 9]] {
+            let hx = hex(&b);
+            let r1 = catch_unwind(AssertUnwindSafe(|| BitList::<N>::from_bytes(SmallVec::from_slice(&b))));
+            let r2 = catch_unwind(AssertUnwindSafe(|| BitList::<N>::from_ssz_bytes(&b)));
+            ctx.out.r("C05", "bitbytes", r1.is_ok() && r2.is_ok(), &["extreme_capacity_no_panic", "bit-extremes", name, &hx]);
+            let same = match (&r1, &r2) {
+                (Ok(Ok(x)), Ok(Ok(y))) => x == y,
+                (Ok(Err(_)), Ok(Err(_))) => true,
+                _ => false,
+            };
+            ctx.out.r("C14", "bitbytes", same, &["extreme_capacity_from_bytes_equals_ssz_decode", "bit-extremes", name, &hx]);
+            // validity rule: non-empty, last byte non-zero, (highest set bit <= N is vacuous here)
+            let want = !b.is_empty() && *b.last().unwrap() != 0;
+            ctx.out.r("C14", "bitbytes", matches!(&r1, Ok(Ok(_))) == want, &["extreme_capacity_accept_set", "bit-extremes", name, &hx]);
+            if let Ok(Ok(x)) = &r1 {
+                let back = catch_unwind(AssertUnwindSafe(|| x.as_ssz_bytes()));
+                ctx.out.r("C14", "bitbytes", matches!(&back, Ok(e) if *e == b), &["extreme_capacity_reencode", "bit-extremes", name, &hx]);
+            }
+        }
+    }
+    small::<U1099511627776>(ctx, "BL2^40");
+    small::<CapMax>(ctx, "BLusizeMAX");
+    if ctx.thorough {
+        // a bitlist whose length does not fit 32 bits: 2^29 + 1 bytes, delimiter in the last byte
+        let n = (1usize << 29) + 1;
+        let mut b = vec![0u8; n];
+        b[n - 1] = 1;
+        b[5] = 0x10;
+        let r = catch_unwind(AssertUnwindSafe(|| BitList::<U1099511627776>::from_ssz_bytes(&b)));
+        let ok = match &r {
+            Ok(Ok(x)) => x.len() == 8 * (n - 1) && x.num_set_bits() == 1 && x.highest_set_bit() == Some(44) && x.get(44) == Ok(true),
+            _ => false,
+        };
+        ctx.out.r("C14", "bitbytes", ok, &["huge_bitlist_accepted_with_right_length", "bit-extremes", "BL2^40", "2^29+1 bytes"]);
+        ctx.out.r("C05", "bitbytes", r.is_ok(), &["huge_bitlist_no_panic", "bit-extremes", "BL2^40", "2^29+1 bytes"]);
     }
 }
 
@@ -1083,17 +1133,20 @@ macro_rules! for_each_bitfield {
         use ssz::{BitList, BitVector, BitVectorDynamic};
         use typenum::*;
         type N1025 = Sum<U1024, U1>;
+        type Cap2049 = Sum<U2048, U1>;
         $f::<BitList<U0>>($ctx); $f::<BitList<U1>>($ctx); $f::<BitList<U2>>($ctx); $f::<BitList<U7>>($ctx);
         $f::<BitList<U8>>($ctx); $f::<BitList<U9>>($ctx); $f::<BitList<U15>>($ctx); $f::<BitList<U16>>($ctx);
         $f::<BitList<U17>>($ctx); $f::<BitList<U31>>($ctx); $f::<BitList<U32>>($ctx); $f::<BitList<U33>>($ctx);
         $f::<BitList<U63>>($ctx); $f::<BitList<U64>>($ctx); $f::<BitList<U65>>($ctx); $f::<BitList<U127>>($ctx);
         $f::<BitList<U128>>($ctx); $f::<BitList<U129>>($ctx); $f::<BitList<U255>>($ctx); $f::<BitList<U256>>($ctx);
         $f::<BitList<U257>>($ctx); $f::<BitList<U1023>>($ctx); $f::<BitList<U1024>>($ctx); $f::<BitList<N1025>>($ctx);
+        $f::<BitList<Cap2049>>($ctx); $f::<BitList<U4095>>($ctx);
         $f::<BitVector<U0>>($ctx); $f::<BitVector<U1>>($ctx); $f::<BitVector<U2>>($ctx); $f::<BitVector<U7>>($ctx);
         $f::<BitVector<U8>>($ctx); $f::<BitVector<U9>>($ctx); $f::<BitVector<U15>>($ctx); $f::<BitVector<U16>>($ctx);
         $f::<BitVector<U17>>($ctx); $f::<BitVector<U31>>($ctx); $f::<BitVector<U32>>($ctx); $f::<BitVector<U33>>($ctx);
         $f::<BitVector<U63>>($ctx); $f::<BitVector<U64>>($ctx); $f::<BitVector<U65>>($ctx); $f::<BitVector<U127>>($ctx);
         $f::<BitVector<U128>>($ctx); $f::<BitVector<U129>>($ctx); $f::<BitVector<U255>>($ctx); $f::<BitVector<U256>>($ctx);
         $f::<BitVector<U257>>($ctx); $f::<BitVector<U1023>>($ctx); $f::<BitVector<U1024>>($ctx); $f::<BitVector<N1025>>($ctx);
+        $f::<BitVector<Cap2049>>($ctx); $f::<BitVector<U4095>>($ctx);
     }};
 }
